@@ -139,10 +139,13 @@ STRUCTURAL = CYCLES + _clashes() + _long_lines() + _huge_counts() + _at_signs() 
 ]
 
 DEEP = [("deep-parentheses", ".dw " + "(" * 20000 + "1" + ")" * 20000), ("deep-unary", ".dw " + "-" * 100000 + "1"),
-        ("deep-function", ".dw " + "low(" * 20000 + "1" + ")" * 20000),
-        # a macro that calls itself with an argument that mentions its own argument twice: the text doubles at every one of the
-        # 64 levels the nesting limit allows
-        ("macro-argument-doubling", ".macro m\n m @0+@0\n.endm\n m 1")]
+        ("deep-function", ".dw " + "low(" * 20000 + "1" + ")" * 20000)]
+# a macro that calls itself with an argument that mentions its own argument more than once: the text grows geometrically at every
+# one of the 64 levels the nesting limit allows - the size of an expansion is bounded like its depth
+GROWING = [".macro m\n m @0+@0\n.endm\n m 1", ".macro m\n m @0*@0+@0\n.endm\n m 2", ".macro m\n m (@0)|(@0), @1\n.endm\n m 1, 2",
+           ".macro m\n m @1, @0+@1\n.endm\n m 1, 1", ".macro a\n b @0+@0\n.endm\n.macro b\n a @0-@0\n.endm\n a 7",
+           ".macro m\n .dw @0\n m @0+@0\n.endm\n m 1", ".macro m\n.if 1\n m low(@0)+high(@0)\n.endif\n.endm\n m 1",
+           ".macro m\n nop ; @0 @0\n m @0+@0\n.endm\n m r16"]
 
 
 REPEATED = {
@@ -257,7 +260,7 @@ def run(res):
     structural = STRUCTURAL if res.tier != "quick" else [s.replace("x" * 60000, "x" * 3000).replace("l" * 60000, "l" * 3000).replace("c" * 60000, "c" * 3000)
                                                             .replace("nop\n" * 20000, "nop\n" * 1500).replace("\n" * 50000, "\n" * 5000)
                                                          for s in STRUCTURAL if not s.startswith(".org 4194303")]
-    texts += [s + "\n" for s in structural] + [proggen.text_of(h) for h in proggen.hostile(rng)]
+    texts += [s + "\n" for s in structural] + [g + "\n" for g in GROWING] + [proggen.text_of(h) for h in proggen.hostile(rng)]
     for _ in range(1500 if res.tier == "quick" else 30000):
         ls = proggen.program(rng, size=rng.choice([4, 10, 25, 60]))
         for _ in range(rng.randrange(1, 4)):
@@ -286,8 +289,8 @@ def run(res):
                 "name kind; %d structural "
                 "programs (cyclic .equ, recursive and mutually recursive macros, unbalanced directives, address-space and allocation "
                 "extremes, 60 KB tokens, NUL/BOM/non-ASCII); the hostile-line corpus; random programs with 1-3 token/line mutations; "
-                "three deep-nesting probes and a self-calling macro that doubles its argument; %d lines with unbalanced parentheses (refused within 3 s).  Each case in its own worker process with a watchdog (10 s) and a 3 GB address-space limit" %
-                (len(OPERANDS), len(STRUCTURAL), len(unbalanced_lines())))
+                "three deep-nesting probes; %d self-calling macros whose argument grows geometrically; %d lines with unbalanced parentheses (refused within 3 s).  Each case in its own worker process with a watchdog (10 s) and a 3 GB address-space limit" %
+                (len(OPERANDS), len(STRUCTURAL), len(GROWING), len(unbalanced_lines())))
     res.samples = [dict(source=t[:80], outcome=obs[t][0][:40]) for t in texts[:2] + texts[-2:]]
     res.assume = ["native stack depth, wall-clock time and the allocator are outside the Coq model; they are exercised by this run only"]
 
